@@ -311,6 +311,7 @@ fn check_mapper(case: &MapperCase, ctx: &mut Ctx) -> Result<(), Fail> {
 pub fn property() -> Property {
     Property {
         id: "C18",
+        quick_mult: 100,
         rule: "onehot: random n<=40, p<=10, any subset of categorical columns listed in any order, 1..6 categories per column with arbitrary u16 codes, plus the exhaustive enumeration of every plain/1/2/3-category assignment of p<=5 (quick) or p<=6 (thorough) columns with n=4 (index list sorted and reversed); expected matrix built from the definition and compared exactly. non-trivial = at least two categorical columns and a plain column after the second one (onehot), a categorical column exists (errors), >=2 distinct categories with repeats (mapper); distinct = distinct serialised case",
         assumptions: vec![
             "category codes are non-negative integers representable in u16 (the encoder's documented category type)".into(),
